@@ -44,7 +44,7 @@ OPEN_VARIANTS = ['valid', 'valid', 'valid', 'rid-low'] + sorted(sc.OPEN_FAULTS)
 def op(draw):
     kind = draw(
         st.sampled_from(
-            ['wait', 'wait', 'handshake', 'handshake', 'open', 'ka', 'ka', 'update', 'eor', 'refresh', 'notif', 'fault', 'fault', 'fault-close', 'fault-close', 'partial', 'eof', 'rst', 'halfclose', 'in', 'in', 'policy', 'teardown', 'reload', 'select']
+            ['wait', 'wait', 'handshake', 'handshake', 'open', 'ka', 'ka', 'update', 'eor', 'refresh', 'notif', 'fault', 'fault', 'fault-close', 'fault-close', 'partial', 'eof', 'rst', 'halfclose', 'in', 'in', 'policy', 'teardown', 'reload', 'reload-remove', 'select']
         )
     )
     if kind == 'wait':
@@ -76,8 +76,18 @@ def cases(draw):
         'connect_ok': draw(st.sampled_from([True, True, True, False])),
         # graceful restart offered by both sides (RFC 4724): a second connection from the peer may then be a restart
         'gr': draw(st.sampled_from([False, False, True])),
-        'ops': draw(st.sampled_from([[], [], [['handshake']], [['handshake']], [['handshake'], ['wait', 0.3]], [['in'], ['handshake']]])) + draw(st.lists(op(), min_size=1, max_size=24)),
+        'ops': draw(st.sampled_from([[], [], [['handshake']], [['handshake']], [['handshake'], ['wait', 0.3]], [['in'], ['handshake']]])) + draw(st.lists(op(), min_size=1, max_size=24)) + draw(st.sampled_from([[], [], [], [['shutdown'], ['wait', 1.0]]])),
     }
+
+
+def fixed_cases() -> list:
+    """the neighbor is removed by a reload, or the daemon shut down, at every stage of the establishment"""
+    out = []
+    for end in (['reload-remove'], ['shutdown']):
+        for pre in ([], [['open', 'valid']], [['open', 'valid'], ['wait', 0.05]], [['handshake']], [['handshake'], ['update']]):
+            for passive in (False, True):
+                out.append({'passive': passive, 'hold': 30, 'connect_ok': True, 'gr': False, 'ops': ([['in']] if passive else []) + pre + [end, ['wait', 0.5], ['open', 'valid'], ['ka'], ['wait', 1.0]]})
+    return out
 
 
 def check(case: dict) -> dict:
@@ -103,10 +113,23 @@ def _check(case: dict) -> dict:
         env = {'bgp.openwait': 8}
         if case['passive']:
             env['bgp.passive'] = True
-        with nh.Harness(loop, config_text=text, env=env) as hn:
+        path = None
+        if any(o[0] == 'reload-remove' for o in case['ops']):
+            import os
+            import tempfile
+
+            out['tmpdir'] = tempfile.mkdtemp(prefix='c05-')
+            path = os.path.join(out['tmpdir'], 'exabgp.conf')
+            with open(path, 'w') as fh:
+                fh.write(text)
+        with nh.Harness(loop, config_text=None if path else text, config_files=[path] if path else None, env=env) as hn:
             if not hn.reload_ok:
                 raise RuntimeError(f'configuration refused: {hn.reactor.configuration.error}')
             runner = sc.Runner(hn)
+            if path:
+                # what stays: the process section and a passive neighbor nobody connects to
+                other = sc.config(passive=True, hold=30).replace('neighbor 127.0.0.2 ', 'neighbor 127.0.0.77 ')
+                runner.remove = (path, other)
             runner.policy = case['connect_ok']
             hn.start()
             await hn.sleep(0.2)
@@ -136,6 +159,11 @@ def _check(case: dict) -> dict:
         vloop.run(main)
     except vloop.Deadlock as exc:
         raise Violation('reactor:stalls', str(exc)) from None
+    finally:
+        if out.get('tmpdir'):
+            import shutil
+
+            shutil.rmtree(out['tmpdir'], ignore_errors=True)
 
     fsm = out['fsm']
     # (1) transitions
@@ -241,7 +269,7 @@ def _check(case: dict) -> dict:
     return {'nontrivial': nontrivial, 'classes': classes}
 
 
-ENGINES = [Engine('schedules', cases, check, quick=700, thorough=12000, batch=100, thorough_s=1200.0)]
+ENGINES = [Engine('schedules', cases, check, quick=700, thorough=12000, batch=100, thorough_s=1200.0, fixed_cases=fixed_cases)]
 
 
 # ---------------------------------------------------------------------------- dynamic peers: a neighbor defined as an address range
